@@ -130,8 +130,11 @@ func (m *machine) intrinsic(name string, fn *ssa.Function, args []value, pos tok
 			return tup{m.mkFileInfo(int64(len(fs.content))), iface{}}, true
 		case "Seek":
 			off, wh := args[1].(iv), args[2].(iv)
-			if off.sym() || wh.sym() {
-				panic(abortPath{"unsupported:symbolic file offset"})
+			if off.sym() {
+				off = m.concretize(off) // forks over the feasible offsets (bounded by the harness's conc= cap)
+			}
+			if wh.sym() {
+				panic(abortPath{"unsupported:symbolic seek whence"})
 			}
 			var np int64
 			switch wh.int64() {
